@@ -17,6 +17,8 @@ import SkNet.Lemmas.ModularityTermZero
 import SkNet.Lemmas.ModularityRelabel
 import SkNet.Lemmas.ModularityShuffle
 import SkNet.Lemmas.ModularityFast
+import SkNet.Lemmas.TerminateLouvainOuter
+import SkNet.Lemmas.TerminateLeiden
 
 namespace SkNet.C06
 open SkNet SkNet.Modularity
@@ -244,17 +246,60 @@ theorem optimize_core_increase_unbounded (g : Graph Rat) (hg : GraphOK g) (res t
   let ⟨h1, h2, _⟩ := optimizeCore_spec g hg res tol K fuel st hinv labels' inc h
   ⟨h1, h2⟩
 
-/-- **what is NOT proved: the compiled arithmetic.**  The kernels compute in IEEE binary32; the statement the property
-    makes of them is `optimize_core_increase` up to rounding: for the `Float32` instance of the very same model
-    (the one the run lines compare bit for bit with the compiled kernel), the rational value of the returned
-    `increase` is within `ε` of the exact change of `Q`.  Tested by the spec lines with `ε = 2e-5` on graphs of up to
-    2 000 nodes (observed drift 5e-6 at 20 000 nodes: `ε` would have to grow with the number of moves); not proved. -/
-def optimize_core_increase_float32_full (ε : Rat) : Prop :=
-  ∀ (g : Graph Float32) (res tol : Float32) (K : Nat) (st : St Float32),
-    GraphOK (g.mapScalar f32ToRat) → CoreInv (g.mapScalar f32ToRat) K (st.mapScalar f32ToRat) →
+/-- the state a kernel call is entered with, up to `δ`: as `CoreInv`, but the cluster weights are only within `δ` of
+    the volumes of the clusters.  (`Louvain._optimize` starts from singletons with copies of the node weights: `δ = 0`.
+    `Leiden._optimize` carries labels over and hands the kernel `membership.T.dot(weights)`, a float32 sum: `δ > 0`
+    on generic weights.) -/
+structure CoreNear (δ : Rat) (g : Graph Rat) (K : Nat) (st : St Rat) : Prop where
+  len : st.labels.length = g.n
+  bound : ∀ i, i < g.n → labOf st.labels i < K
+  lenO : st.outCl.length = K
+  lenI : st.inCl.length = K
+  lenC : st.cw.length = K
+  cwZero : ∀ x, st.cw.getD x 0 = 0
+  volO : ∀ x, x < K → |st.outCl.getD x 0 - vol g.n g.outW (labOf st.labels) x| ≤ δ
+  volI : ∀ x, x < K → |st.inCl.getD x 0 - vol g.n g.inW (labOf st.labels) x| ≤ δ
+
+/-- `CoreNear 0` is `CoreInv` (so the hypothesis below is satisfiable wherever `CoreInv` is: see the example after
+    `scratch_invariant`) -/
+theorem coreNear_zero_iff (g : Graph Rat) (K : Nat) (st : St Rat) : CoreNear 0 g K st ↔ CoreInv g K st := by
+  constructor
+  · intro h
+    exact ⟨h.len, h.bound, h.lenO, h.lenI, h.lenC, h.cwZero,
+      fun x hx => sub_eq_zero.mp (abs_nonpos_iff.mp (h.volO x hx)),
+      fun x hx => sub_eq_zero.mp (abs_nonpos_iff.mp (h.volI x hx))⟩
+  · intro h
+    exact ⟨h.len, h.bound, h.lenO, h.lenI, h.lenC, h.cwZero,
+      fun x hx => by rw [h.volO x hx, sub_self, abs_zero],
+      fun x hx => by rw [h.volI x hx, sub_self, abs_zero]⟩
+
+/-- the magnitudes on which a bound on the rounding can hold: what `_pre_processing` and `_aggregate` produce from a
+    matrix without negative entries (entries and node weights non-negative, each family summing to at most 2 — to 1
+    before the casts) -/
+structure Normalised (g : Graph Rat) : Prop where
+  adjNonneg : ∀ u v, 0 ≤ adj g u v
+  adjSum : (sumTo g.n fun u => sumTo g.n (adj g u)) ≤ 2
+  outNonneg : ∀ u, 0 ≤ g.outW u
+  outSum : sumTo g.n g.outW ≤ 2
+  inNonneg : ∀ u, 0 ≤ g.inW u
+  inSum : sumTo g.n g.inW ≤ 2
+
+/-- **what is NOT proved: the compiled arithmetic (kernel).**  The kernels compute in IEEE binary32; the statement the
+    property makes of them is `optimize_core_increase` up to rounding.  For the `Float32` instance of the very same
+    model (the one the `c06.core` lines compare bit for bit with the compiled kernel, on arrays the harness builds and
+    on the arrays the fits hand to the kernel), on a graph of normalised magnitudes, resolution in `[0, 4]`, entered
+    with cluster weights within `δ` of the volumes: the rational value of the returned `increase` is within `ε n δ` of
+    the exact change of `Q`.  `ε` must grow with the size (at most `n + 1` passes of at most `n` moves, each adding a
+    rounded gain; observed drift 5e-6 at 20 000 nodes) and with `δ`: no fixed `ε` can do.  Tested by the spec lines
+    with `2e-5` up to 700 nodes; not proved. -/
+def optimize_core_increase_float32_full (ε : Nat → Rat → Rat) : Prop :=
+  ∀ (g : Graph Float32) (res tol : Float32) (K : Nat) (st : St Float32) (δ : Rat),
+    GraphOK (g.mapScalar f32ToRat) → Normalised (g.mapScalar f32ToRat) →
+    0 ≤ f32ToRat res → f32ToRat res ≤ 4 →
+    CoreNear δ (g.mapScalar f32ToRat) K (st.mapScalar f32ToRat) →
     |f32ToRat (optimizeCoreCapped g res tol st).2
         - (QG (g.mapScalar f32ToRat) (f32ToRat res) (optimizeCoreCapped g res tol st).1
-            - QG (g.mapScalar f32ToRat) (f32ToRat res) st.labels)| ≤ ε
+            - QG (g.mapScalar f32ToRat) (f32ToRat res) st.labels)| ≤ ε g.n δ
 
 /-- **termination of the loop of `optimize_core` without its bound on the passes**, exact arithmetic, every tolerance
     `≥ 0`: `Q` takes finitely many values over the label vectors and every pass that does not stop the loop raises it
@@ -320,8 +365,9 @@ theorem objective_eq_modularity (kind : Kind) (nRow nCol nnz : Nat) (B : Nat →
   exact ⟨symLevel_levelOK _ _ _ _, kindWeights_objective kind _ _ w hw γ c⟩
 
 /-! ### the fits.  What is proved (`…_partial`) is about the models of `Louvain.fit` / `Leiden.fit` **as compiled
-(kernels with their bound of `n + 1` passes), in exact arithmetic, `sort_clusters=False`, for every run of the model
-that returns**; what is missing is stated in `never_worse_float32_full` and `fits_return_full` below. -/
+(kernels with their bounds of `n + 1` / 100 passes), in exact arithmetic, `sort_clusters=False`, for every run of the model
+that returns** — and every run on an accepted input returns: `fits_return` below; what is missing (the compiled
+arithmetic) is stated in `louvain_never_worse_float32_full` / `leiden_never_worse_float32_full`. -/
 
 /-- the per-cluster form of the objective that the spec lines use on graphs with hundreds of nodes
     (`Σ_k vol⁺(k)·vol⁻(k)` for the null model) is the objective of the specification, for every kind -/
@@ -341,9 +387,8 @@ theorem objective_fast_eq (kind : Kind) (n : Nat) (A : Nat → Nat → Rat) (γ 
     returns (any graph, kind, resolution, tolerances, aggregation limit), the objective of the kind — the documented
     formula on the input matrix — of the returned labels equals that of the all-singletons partition plus the sum of
     the logged increases, every logged increase is non-negative, hence the returned partition is at least as good as
-    the singletons.  Missing: float32 rounding of the gains (`never_worse_float32_full`); that the outer loop always
-    returns within the `n + 1` rounds the model allows (`fits_return_full`; C17 proves it for the kernel without its
-    bound on the passes). -/
+    the singletons.  Missing: float32 rounding of the gains (`louvain_never_worse_float32_full`).  That the model
+    returns on every accepted input when `tol_aggregation ≥ 0`: `fits_return`. -/
 theorem louvain_never_worse_partial (kind : Kind) (res tolOpt tolAgg : Rat) (nAgg : Int) (nRow nCol nnz : Nat)
     (B : Nat → Nat → Rat) (fb : Bool) (out : FitOut)
     (h : louvainFitCapped kind res tolOpt tolAgg nAgg nRow nCol nnz B fb = .ok (some out)) :
@@ -386,8 +431,8 @@ theorem objective_relabel_invariant {n : Nat} {π π' : Nat → Nat} (h : IsPerm
     returns — for every oracle of the random choices of the refinement, any graph, kind, resolution, tolerances, any
     number `outerFuel` of aggregations allowed — the objective of the kind of the returned labels equals that of the
     singletons plus the sum of the logged increases, each non-negative.  (The refined partition only decides how the
-    graph is aggregated; the labels returned are the coarse clusters of `optimize_core`.)  Missing: float32 rounding;
-    that the outer loop of `Leiden.fit` always ends (`fits_return_full`: no bound in terms of `n` is known to us). -/
+    graph is aggregated; the labels returned are the coarse clusters of `optimize_core`.)  Missing: float32 rounding
+    (`leiden_never_worse_float32_full`).  That the model returns once `n + 1` aggregations are allowed: `fits_return`. -/
 theorem leiden_never_worse_partial (kind : Kind) (res tolOpt tolAgg : Rat) (nAgg : Int) (nRow nCol nnz : Nat)
     (B : Nat → Nat → Rat) (fb : Bool) (outerFuel : Nat) (rands : List (List Nat)) (out : FitOut)
     (h : leidenFit kind res tolOpt tolAgg nAgg nRow nCol nnz B fb outerFuel rands = .ok (some out)) :
@@ -403,26 +448,73 @@ theorem leiden_never_worse_partial (kind : Kind) (res tolOpt tolAgg : Rat) (nAgg
   have : 0 ≤ out.increases.sum := list_sum_nonneg _ h3
   linarith
 
-/-- **the full statements that are NOT proved.**  (1) For non-negative tolerances the models of the two fits always
-    return: `Louvain.fit` within the `n + 1` rounds its model allows, `Leiden.fit` within some number of aggregations
-    (the code has no limit; C17 proves the Louvain case for the kernel without its bound on the passes). -/
-def fits_return_full : Prop :=
+/-- **fits_return.**  Once the input is accepted, the models of the two fits as compiled always return (exact
+    arithmetic): `Louvain.fit` for every `tol_optimization` and every `tol_aggregation ≥ 0` within the `n + 1` rounds
+    its model allows (a round that continues has a positive exact increase, so a node left its singleton and the
+    aggregate is smaller); `Leiden.fit` for every tolerance and every oracle as soon as `n + 1` aggregations are
+    allowed (a round that continues has merged a node: the `n == n_previous` stop of /repo b2c73765).  The two
+    termination arguments are C17's (`Lemmas/TerminateLouvainOuter.lean`, `Lemmas/TerminateLeiden.lean`); with them the
+    hypotheses `= .ok (some out)` of the `…_never_worse_partial` theorems hold whenever the input is accepted. -/
+theorem fits_return (kind : Kind) (res tolOpt tolAgg : Rat) (nAgg : Int) (nRow nCol nnz : Nat)
+    (B : Nat → Nat → Rat) (fb : Bool) (rands : List (List Nat)) :
+    (0 ≤ tolAgg → louvainFitCapped kind res tolOpt tolAgg nAgg nRow nCol nnz B fb ≠ .ok none) ∧
+    ∀ outerFuel, (kindAdj kind nRow nCol B fb).1 + 1 ≤ outerFuel →
+      leidenFit kind res tolOpt tolAgg nAgg nRow nCol nnz B fb outerFuel rands ≠ .ok none := by
+  refine ⟨fun h => SkNet.Terminate.louvainFitCapped_terminates kind res tolOpt tolAgg h nAgg nRow nCol nnz B fb, ?_⟩
+  intro outerFuel hf
+  cases hpre : preProcess kind nRow nCol nnz B fb with
+  | error e => unfold leidenFit; rw [hpre]; simp
+  | ok lv =>
+    obtain ⟨w, _, hlv⟩ := preProcess_ok kind nRow nCol nnz B fb lv hpre
+    have hn : lv.n = (kindAdj kind nRow nCol B fb).1 := by rw [hlv]; rfl
+    exact SkNet.Terminate.leidenFit_terminates kind res tolOpt tolAgg nAgg nRow nCol nnz B fb rands lv hpre outerFuel
+      (by omega)
+
+/-- non-vacuity: the house is accepted and both fits return on it -/
+example :
+    (louvainFitCapped .dugue 1 (1/1000) (1/1000) (-1) 5 5 12 house false).toOption.join.isSome = true ∧
+    (leidenFit .dugue 1 (1/1000) (1/1000) (-1) 5 5 12 house false 6 []).toOption.join.isSome = true := by
+  decide +kernel
+
+/-- what `astype(np.float32)` does to a value of the float64 layer, as far as the statements below need it: the
+    result is within half an ulp (relative `2⁻²⁴`, absolute `2⁻¹⁵⁰` in the subnormal range) -/
+def IsRoundF32 (cast : Rat → Float32) : Prop :=
+  ∀ x : Rat, |x| ≤ 2 ^ 100 → |f32ToRat (cast x) - x| ≤ |x| / 2 ^ 24 + 1 / 2 ^ 150
+
+/-- **what is NOT proved: the property as it reads for the compiled code, Louvain.**  About the executions of
+    `louvainFitF32` — `Louvain.fit` with the arrays of every level cast to float32 and `optimize_core` computing in
+    binary32 (the `Float32` instance the run lines tie to the compiled kernel), the float64 layer in ℚ: on a matrix
+    without negative entries, resolution in `[0, 4]`, whenever the fit returns, the objective (documented formula,
+    exact) of the returned labels is within `ε n` of objective(singletons) + Σ logged increases and not below
+    objective(singletons) − `ε n`.  This is what the spec lines test with `ε = 2e-5` (up to 700 nodes); `ε` has to
+    grow with the number of nodes.  The `F32` fit models themselves are not run by the driver: their kernels are. -/
+def louvain_never_worse_float32_full (ε : Nat → Rat) : Prop :=
+  ∀ (cast : Rat → Float32), IsRoundF32 cast →
   ∀ (kind : Kind) (res tolOpt tolAgg : Rat) (nAgg : Int) (nRow nCol nnz : Nat) (B : Nat → Nat → Rat) (fb : Bool)
-    (rands : List (List Nat)), 0 ≤ tolOpt → 0 ≤ tolAgg →
-    louvainFitCapped kind res tolOpt tolAgg nAgg nRow nCol nnz B fb ≠ .ok none ∧
-    ∃ fuel : Nat, ∀ fuel', fuel ≤ fuel' →
-      leidenFit kind res tolOpt tolAgg nAgg nRow nCol nnz B fb fuel' rands ≠ .ok none
+    (out : FitOut), (∀ i j, 0 ≤ B i j) → 0 ≤ res → res ≤ 4 →
+    louvainFitF32 cast kind res tolOpt tolAgg nAgg nRow nCol nnz B fb = .ok (some out) →
+    |objective kind (kindAdj kind nRow nCol B fb).1 (kindAdj kind nRow nCol B fb).2 res (labOf out.labels)
+        - objective kind (kindAdj kind nRow nCol B fb).1 (kindAdj kind nRow nCol B fb).2 res (fun u => u)
+        - out.increases.sum| ≤ ε (kindAdj kind nRow nCol B fb).1 ∧
+    objective kind (kindAdj kind nRow nCol B fb).1 (kindAdj kind nRow nCol B fb).2 res (fun u => u)
+        - ε (kindAdj kind nRow nCol B fb).1
+      ≤ objective kind (kindAdj kind nRow nCol B fb).1 (kindAdj kind nRow nCol B fb).2 res (labOf out.labels)
 
-/-- (2) The property as it reads for the compiled code: the float64 / float32 computation returns labels whose
-    objective (documented formula, exact) is within `ε` of objective(singletons) + Σ logged increases and not below
-    objective(singletons) − `ε`.  The kernel part is `optimize_core_increase_float32_full`; here it is stated of any
-    labels and logged increases an execution may return, as the spec lines test it (`ε = 2e-5`). -/
-def never_worse_float32_full (ε : Rat) (kind : Kind) (n : Nat) (A : Nat → Nat → Rat) (res : Rat)
-    (labels : List Nat) (increases : List Rat) : Prop :=
-  |objective kind n A res (labOf labels) - objective kind n A res (fun u => u) - increases.sum| ≤ ε ∧
-  objective kind n A res (fun u => u) - ε ≤ objective kind n A res (labOf labels)
+/-- **the same for Leiden** (`leidenFitF32`: both kernels in binary32, the cluster weights of the carried labels
+    summed in binary32), for every oracle of the random choices of the refinement; not proved -/
+def leiden_never_worse_float32_full (ε : Nat → Rat) : Prop :=
+  ∀ (cast : Rat → Float32), IsRoundF32 cast →
+  ∀ (kind : Kind) (res tolOpt tolAgg : Rat) (nAgg : Int) (nRow nCol nnz : Nat) (B : Nat → Nat → Rat) (fb : Bool)
+    (rands : List (List Nat)) (out : FitOut), (∀ i j, 0 ≤ B i j) → 0 ≤ res → res ≤ 4 →
+    leidenFitF32 cast kind res tolOpt tolAgg nAgg nRow nCol nnz B fb rands = .ok (some out) →
+    |objective kind (kindAdj kind nRow nCol B fb).1 (kindAdj kind nRow nCol B fb).2 res (labOf out.labels)
+        - objective kind (kindAdj kind nRow nCol B fb).1 (kindAdj kind nRow nCol B fb).2 res (fun u => u)
+        - out.increases.sum| ≤ ε (kindAdj kind nRow nCol B fb).1 ∧
+    objective kind (kindAdj kind nRow nCol B fb).1 (kindAdj kind nRow nCol B fb).2 res (fun u => u)
+        - ε (kindAdj kind nRow nCol B fb).1
+      ≤ objective kind (kindAdj kind nRow nCol B fb).1 (kindAdj kind nRow nCol B fb).2 res (labOf out.labels)
 
-/-- the refinement kernel as compiled (at most `n + 1` passes), for every oracle: the refined partition refines the
+/-- the refinement kernel as compiled (at most `refinePasses` = 100 passes), for every oracle: the refined partition refines the
     clusters it is given, and is reached by nodes joining the refined cluster of a stored neighbour with the node's
     own label -/
 theorem refine_refines (g : Graph Rat) (hcols : ∀ i, i < g.n → ∀ e ∈ g.row i, e.1 < g.n) (res : Rat)
@@ -475,6 +567,21 @@ theorem components_test_sound (n : Nat) (A : Nat → Nat → Rat) (c : Nat → N
     (h : clustersWithinComponents n A c = true) :
     ∀ u v, u < n → v < n → c u = c v → Connected n A u v :=
   clustersWithinComponents_sound n A c h
+
+/-- the component test of the spec lines on graphs with hundreds of nodes (a forest and the root of every cluster are
+    supplied by the caller) accepts only such labelings, whatever it is supplied with -/
+theorem components_forest_test_sound (n : Nat) (A : Nat → Nat → Rat) (c parent croot : Nat → Nat)
+    (h : clustersWithinForest n A c parent croot = true) :
+    ∀ u v, u < n → v < n → c u = c v → Connected n A u v :=
+  clustersWithinForest_sound n A c parent croot h
+
+/-- non-vacuity: on the two triangles the forest `1 → 0, 2 → 1, 4 → 3, 5 → 4` certifies the two triangles as clusters
+    and does not certify one cluster of six (another forest would: the edge 2 – 3 joins the triangles) -/
+example :
+    clustersWithinForest 6 twoTriangles (fun u => u / 3) (fun u => if u % 3 = 0 then u else u - 1)
+      (fun k => 3 * k) = true ∧
+    clustersWithinForest 6 twoTriangles (fun _ => 0) (fun u => if u % 3 = 0 then u else u - 1) (fun _ => 0) = false := by
+  decide +kernel
 
 /-- … and accepts every such labeling, given the closure certificate it evaluates itself on every call -/
 theorem components_test_complete (n : Nat) (A : Nat → Nat → Rat) (c : Nat → Nat)
